@@ -565,8 +565,114 @@ def rule_mat4(repo, tier):
     return rule_mat(repo, 'C04.MAT', strict=True)
 
 
+@guarded
+def rule_hrow(repo, tier):
+    """The action on a homogeneous 4-vector leaves its last coordinate alone (out[3] = w for every group element), so the Jacobian of Act4 with
+    respect to the element has a ZERO last row.  Block analysis of the four *_Act4_Jacobian builders: a zero-initialised matrix stays zero in row 3
+    when every store addresses rows :3 only (or stores whole rows of a block that is itself zero in its last row); a concatenation along the
+    columns keeps the property iff every block has it.  A block like p.unsqueeze(-1) (the 4-vector itself as scale column) puts w into row 3: the
+    scale slot of X.grad then receives w times the cotangent of the homogeneous coordinate."""
+    res = RuleResult('C04.HROW', 'every *_Act4_Jacobian has a zero last row (the homogeneous coordinate does not depend on the group element): blocks are '
+                     'stored into rows :3 of a zero matrix, or concatenated from blocks with that property', floor=4)
+    names = ['SO3_Act4_Jacobian', 'SE3_Act4_Jacobian', 'RxSO3_Act4_Jacobian', 'Sim3_Act4_Jacobian']
+    memo = {}
+
+    def rows_only_top(sl):
+        el = list(sl.elts) if isinstance(sl, ast.Tuple) else [sl]
+        if not el or not (isinstance(el[0], ast.Constant) and el[0].value is Ellipsis):
+            return None
+        el = el[1:]
+        if len(el) == 1:
+            return 'all'                      # [..., cols]: whole rows... of the LAST axis only -> every row is written
+        if len(el) != 2:
+            return None
+        r = el[0]
+        if isinstance(r, ast.Constant) and isinstance(r.value, int):
+            return 'top' if 0 <= r.value <= 2 else 'touches'
+        if isinstance(r, ast.Slice) and r.step is None:
+            lo = 0 if r.lower is None else (r.lower.value if isinstance(r.lower, ast.Constant) and isinstance(r.lower.value, int) else None)
+            hi = r.upper.value if isinstance(r.upper, ast.Constant) and isinstance(r.upper.value, int) else None
+            if r.upper is None:
+                return 'all' if lo == 0 else 'touches'
+            if lo is not None and hi is not None and 0 <= lo and 0 < hi <= 3:
+                return 'top'
+            return 'touches'
+        return None
+
+    def and3(vals):
+        vals = list(vals)
+        if any(v is False for v in vals):
+            return False
+        return None if any(v is None for v in vals) else True
+
+    def zero_last(e, depth=0, param=None):
+        """True: last row provably zero; False: provably carries data; None: idiom not recognised"""
+        if isinstance(e, ast.Call):
+            d = dotted(e.func) or ''
+            if d == '$upd':
+                prev, idx, val = e.args
+                how = rows_only_top(idx.slice) if isinstance(idx, ast.Subscript) else None
+                if how == 'top':
+                    return zero_last(prev, depth, param)
+                if how == 'all':
+                    return and3([zero_last(prev, depth, param), zero_last(val, depth, param)])
+                if how == 'touches':
+                    return False
+                return None
+            if d in ('torch.zeros', 'torch.zeros_like') or (isinstance(e.func, ast.Attribute) and e.func.attr == 'new_zeros'):
+                return True
+            if d in ('torch.cat', 'torch.concat') and e.args and isinstance(e.args[0], (ast.Tuple, ast.List)):
+                dim = next((k.value for k in e.keywords if k.arg == 'dim'), e.args[1] if len(e.args) > 1 else None)
+                try:
+                    dv = ast.literal_eval(dim) if dim is not None else 0
+                except (ValueError, SyntaxError):
+                    return None
+                if dv == -1:
+                    return and3(zero_last(x, depth, param) for x in e.args[0].elts)
+                if dv == -2:
+                    return zero_last(e.args[0].elts[-1], depth, param)
+                return None
+            if d.endswith('functional.pad') or d in ('F.pad', 'pad'):
+                try:
+                    pad = ast.literal_eval(e.args[1]) if len(e.args) > 1 else None
+                except (ValueError, SyntaxError):
+                    pad = None
+                if isinstance(pad, (tuple, list)) and len(pad) >= 4 and pad[3] >= 1:
+                    return True
+                return None
+            if isinstance(e.func, ast.Attribute) and e.func.attr == 'unsqueeze' and len(e.args) == 1 and src(e.args[0]).replace(' ', '') == '-1' \
+                    and isinstance(e.func.value, ast.Name) and e.func.value.id == param:
+                return False                  # the homogeneous 4-vector itself as a column: its last entry w lands in row 3
+            if isinstance(e.func, ast.Name) and e.func.id in repo.module(OP).functions and depth < 4:
+                g = e.func.id
+                if g not in memo:
+                    memo[g] = None
+                    gf = repo.func(OP, g)
+                    rets = returns_of(gf.node)
+                    if len(rets) == 1 and rets[0].value is not None:
+                        memo[g] = zero_last(inline_straight(gf.node, upto=rets[0]).value(rets[0].value), depth + 1, gf.pos_params[0] if gf.pos_params else None)
+                return memo[g]
+        return None
+
+    for n in names:
+        f = repo.func(OP, n)
+        rets = returns_of(f.node)
+        if len(rets) != 1 or rets[0].value is None:
+            raise AnalysisError('C04.HROW: %s has %d returns' % (n, len(rets)))
+        v = inline_straight(f.node, upto=rets[0]).value(rets[0].value)
+        ok = zero_last(v, 0, f.pos_params[0] if f.pos_params else None)
+        if ok is None:
+            raise AnalysisError('C04.HROW: the block structure of %s is not recognised' % n)
+        res.inst({'function': f.fq, 'last_row_zero': ok}, f.fq)
+        if not ok:
+            res.add(Finding('C04.HROW', f, '%s: the last row of the Jacobian (derivative of the homogeneous coordinate, which no group element changes) is '
+                            'not zero - a block is written into row 3 or the full 4-vector is used as a column; the gradient of X then picks up the '
+                            'cotangent of the homogeneous coordinate' % n, node=rets[0], construct='last row of the Act4 Jacobian'))
+    return res
+
+
 def _rules_core(repo, tier):
-    return [rule_vt(repo, tier), rule_sb(repo, tier), rule_lt(repo, tier), rule_pure(repo, tier), rule_dep(repo, tier), rule_saved(repo, tier), rule_mat4(repo, tier)]
+    return [rule_vt(repo, tier), rule_sb(repo, tier), rule_lt(repo, tier), rule_pure(repo, tier), rule_dep(repo, tier), rule_saved(repo, tier), rule_mat4(repo, tier), rule_hrow(repo, tier)]
 
 
 @guarded
@@ -697,4 +803,4 @@ def rules(repo, tier):
                                                       'before it is complete - a later call with the same object and other contents must not be answered from it',
                                                       ['pypose.lietensor.lietensor', 'pypose.lietensor.operation', 'pypose.lietensor.basics', 'pypose.lietensor.utils'], floor=3),
             rule_optional(repo, 'C04.OPT', ['pypose.lietensor.lietensor', 'pypose.lietensor.operation', 'pypose.lietensor.basics', 'pypose.lietensor.utils'])] + mode_rules(repo, 'C04', ['pypose.lietensor.lietensor', 'pypose.lietensor.operation', 'pypose.lietensor.basics', 'pypose.lietensor.utils']) + [rule_callsig(repo, 'C04.SIG', ['pypose.lietensor.lietensor', 'pypose.lietensor.operation', 'pypose.lietensor.basics', 'pypose.lietensor.utils']), rule_docsig(repo, 'C04.DOC', ['pypose.lietensor.lietensor', 'pypose.lietensor.operation', 'pypose.lietensor.basics', 'pypose.lietensor.utils'])] + [
-            rule_axisdefault(repo, 'C04.AXDEF', ['pypose.lietensor.lietensor', 'pypose.lietensor.operation', 'pypose.lietensor.basics', 'pypose.lietensor.utils', 'pypose.lietensor.convert', 'pypose.basics.ops'])]
+            rule_axisdefault(repo, 'C04.AXDEF', ['pypose.lietensor.lietensor', 'pypose.lietensor.operation', 'pypose.lietensor.basics', 'pypose.lietensor.utils', 'pypose.lietensor.convert', 'pypose.basics.ops']), __import__('sa.axisdefault', fromlist=['x']).rule_frontaxis(repo, 'C04.BAX', ['pypose.lietensor.lietensor', 'pypose.lietensor.operation', 'pypose.lietensor.basics', 'pypose.lietensor.utils', 'pypose.lietensor.convert'])]
